@@ -512,3 +512,74 @@ def token_mutate(data, r):
         if not toks:
             break
     return b"".join(toks)
+
+
+# ----------------------------------------------------------------------------- semantically valid schemas (for the tl2gen path)
+PRELUDE = """int#a8509bda ? = Int;
+long#22076cba ? = Long;
+string#b5286e24 ? = String;
+vector#1cb5c415 {t:Type} # [t] = Vector t;
+tuple#9770768a {t:Type} {n:#} [t] = Tuple t n;
+"""
+
+
+def valid_schema(r, ntypes=None):
+    """A schema the kernel accepts (mostly): a prelude plus structs/unions/functions that only use defined types."""
+    out = [PRELUDE] if r.chance(5, 6) else [PRELUDE.replace("int#a8509bda", "int").replace("vector#1cb5c415", "vector")]
+    types = []  # (lc constructor, Uc type)
+    n = ntypes if ntypes is not None else r.range(1, 6)
+    ns = r.choice(["", "", "ab.", "svc_1."])
+
+    def ty(depth=2):
+        k = r.below(10)
+        if k < 3 or not types and k < 6:
+            return r.choice(["int", "long", "string", "Int", "%Long", "String"])
+        if k < 6 and types:
+            c, u = r.choice(types)
+            return u if c == u else r.choice([c, u, "%" + u])
+        if depth <= 0:
+            return "int"
+        if k == 6:
+            return r.choice(["(vector %s)", "vector<%s>", "(Vector %s)", "%%(Vector %s)"]) % ty(depth - 1)
+        if k == 7:
+            return r.choice(["(tuple %s %d)", "tuple<%s, %d>", "(Tuple %s %d)"]) % (ty(depth - 1), r.range(0, 4))
+        if k == 8:
+            return "(tuple %s %s)" % (ty(depth - 1), r.choice(["2+1", "(1+1)", "0"]))
+        return r.choice(["int", "string"])
+
+    def fields(prefix):
+        fs = []
+        nats = []
+        for i in range(r.below(5)):
+            name = "%s%d" % (prefix, i)
+            k = r.below(9)
+            if k == 0:
+                fs.append("%s:#" % name)
+                nats.append(name)
+            elif k == 1 and nats:
+                fs.append("%s:%s.%d?%s" % (name, r.choice(nats), r.below(32), ty()))
+            elif k == 2 and nats:
+                fs.append("%s:%s*[%s]" % (name, r.choice(nats), ty(1)))
+            elif k == 3:
+                fs.append("%s:%d*[%s]" % (name, r.range(0, 3), ty(1)))
+            elif k == 4 and nats:
+                fs.append("%s:(tuple %s %s)" % (name, ty(1), r.choice(nats)))
+            else:
+                fs.append("%s:%s" % (name, ty()))
+        return " ".join(fs)
+
+    for i in range(n):
+        c, u = "%st%d" % (ns, i), "%sT%d" % (ns, i)
+        tag = "#%08x" % r.range(1, 2**32 - 1) if r.chance(1, 3) else ""
+        if r.chance(1, 4):
+            out.append("%sA%s %s = %s;\n%sB %s = %s;\n" % (c, tag, fields("a"), u, c, fields("b"), u))
+            types.append((u, u))
+        else:
+            out.append("%s%s %s = %s;\n" % (c, tag, fields("f"), u))
+            types.append((c, u))
+    if r.chance(2, 3):
+        out.append("---functions---\n")
+        for i in range(r.range(1, 3)):
+            mods = r.choice(["", "@read ", "@write ", "@readwrite ", "@any ", "@read @kphp ", "@internal @write "])
+            out.append("%s%sfn%d %s = %s;\n" % (mods, ns, i, fields("q"), r.choice(["Int", "Vector int", "Vector<%s>" % (types[0][1] if types else "Int"), "String", "Tuple string 2"])))
+    return "".join(out).encode()
